@@ -242,5 +242,5 @@ def instances(tier):
 LEVEL_TEXT = ("Bounded model checking of the constraint translation: the real OPF builders map the declared (symbolic) p/q/vm limits of every "
               "controllable element into the solver's box and the real result writers map any point of that box back; z3 shows every such "
               "point satisfies the declared limits within the OPF tolerance and that non-controllable gens are pinned to their setpoints.")
-LEVEL_NOTE = ("Trusted: PIPS returns a point inside the box it is given (generic solver contract); z3. Branch limits, optimality and the power-flow "
+LEVEL_NOTE = ("Trusted: PIPS returns a point inside the box it is given (generic solver contract); z3. Branch ratings are checked at the builder (RATE_A) and at the DC OPF constraint rows; optimality and the power-flow "
               "reproducibility clause are outside. Bounds: one net with one element of each controllable kind.")
